@@ -4,6 +4,7 @@
 //! hdsim replay <file> [--machine]
 //! hdsim determinism <PROPERTY> [--runs N]       (prints one digest per run, for cross-process diffing)
 
+mod e2e;
 mod eyesim;
 mod framework;
 mod iosim;
@@ -33,6 +34,7 @@ struct Args {
     runs: Option<u64>,
     threads: usize,
     machine: bool,
+    start: u64,
 }
 
 fn parse_args() -> Args {
@@ -50,6 +52,7 @@ fn parse_args() -> Args {
     let mut runs = None;
     let mut threads = std::thread::available_parallelism().map(|n| n.get()).unwrap_or(4);
     let mut machine = false;
+    let mut start = 0u64;
     let mut tier_set_by_flag = false;
     while let Some(a) = it.next() {
         match a.as_str() {
@@ -65,11 +68,12 @@ fn parse_args() -> Args {
             "--runs" => runs = Some(it.next().and_then(|s| parse_u64(&s)).unwrap_or_else(|| usage())),
             "--threads" => threads = it.next().and_then(|s| s.parse().ok()).unwrap_or_else(|| usage()),
             "--machine" => machine = true,
+            "--start" => start = it.next().and_then(|s| parse_u64(&s)).unwrap_or_else(|| usage()),
             _ => usage(),
         }
     }
     let _ = tier_set_by_flag;
-    Args { cmd, target, tier, seed, runs, threads, machine }
+    Args { cmd, target, tier, seed, runs, threads, machine, start }
 }
 
 fn parse_u64(s: &str) -> Option<u64> {
@@ -117,6 +121,9 @@ fn check(args: &Args) -> i32 {
         "C10" | "C11" => {
             let sc = eyesim::EyeSim { property: if property == "C10" { "C10" } else { "C11" } };
             parts.push(run_part(&sc, &cfg("eyesim"), &known, &mut verdict));
+        }
+        "C01" => {
+            parts.push(run_part(&e2e::E2eSim, &cfg("e2esim"), &known, &mut verdict));
         }
         "C18" => {
             parts.push(run_part(&iosim::IoSim, &cfg("iosim"), &known, &mut verdict));
@@ -209,6 +216,7 @@ fn replay(args: &Args) -> i32 {
     match rf.engine.as_str() {
         "eyesim" => replay_with(&eyesim::EyeSim { property: "C10" }, &rf, args.machine),
         "iosim" => replay_with(&iosim::IoSim, &rf, args.machine),
+        "e2esim" => replay_with(&e2e::E2eSim, &rf, args.machine),
         "timersim" => replay_with(&timersim::TimerSim, &rf, args.machine),
         "poolsim" => replay_with(&poolsim::PoolSim { property: leak(&rf.property) }, &rf, args.machine),
         other => {
@@ -221,11 +229,14 @@ fn replay(args: &Args) -> i32 {
 fn determinism_with<S: Scenario>(sc: &S, args: &Args) -> i32 {
     let runs = args.runs.unwrap_or(2000);
     let (n_enum, _) = sc.num_cases(args.tier);
-    for i in 0..runs {
+    for i in args.start..args.start + runs {
         // skip the enumerated prefix: seeds are what we want to compare
         let idx = n_enum + i;
         let seed = run_seed(args.seed, idx);
         let case = sc.case(idx, seed, args.tier);
+        if std::env::var("VERIF_SHOW_CASE").is_ok() {
+            eprintln!("case {}: {}", i, serde_json::to_string(&case).unwrap_or_default());
+        }
         let out = sc.execute(&case);
         println!("{} {} {:016x} {}", i, seed, out.log_digest, out.violations.len());
     }
@@ -235,6 +246,7 @@ fn determinism_with<S: Scenario>(sc: &S, args: &Args) -> i32 {
 fn determinism(args: &Args) -> i32 {
     match args.target.as_str() {
         "C18" => determinism_with(&iosim::IoSim, args),
+        "C01" => determinism_with(&e2e::E2eSim, args),
         "C10" | "C11" | "eyesim" => determinism_with(&eyesim::EyeSim { property: "C10" }, args),
         "C02" | "C03" | "C04" | "C05" | "C06" | "C14" | "C15" | "C17" | "C19" => {
             determinism_with(&poolsim::PoolSim { property: leak(&args.target) }, args)
@@ -247,6 +259,14 @@ fn determinism(args: &Args) -> i32 {
 }
 
 fn main() {
+    if let Ok(filter) = std::env::var("VERIF_LOG") {
+        // development aid: library trace output (never enabled by the registered checks)
+        let _ = tracing_subscriber::fmt()
+            .with_env_filter(tracing_subscriber::EnvFilter::new(filter))
+            .with_writer(std::io::stderr)
+            .without_time()
+            .try_init();
+    }
     simrt::install_panic_hook();
     let args = parse_args();
     let code = match args.cmd.as_str() {
